@@ -28,7 +28,8 @@ RULE = (
     "progress vector of open candidate streams); transitions = operations CALL(p), OPEN(p), STEP(i), ABANDON(i), FAIL executed on the real code.  ALL histories up to the depth "
     "bound, ALL merges of the steps of two streams (pairs of short streams), ALL 2-thread schedules with <=1 preemption at the stated granularity are executed; every observation "
     "(value, span, production, score, subject, labels; or the exception type) must equal the fresh-process reference table, which must itself be identical under every enumerated "
-    "PYTHONHASHSEED; the fingerprint must equal its initial value after every operation; yielded candidates must not change afterwards.  "
+    "PYTHONHASHSEED; additionally each thread is profiled alone at LINE granularity for points at which module-level state of ctparse.* changes, and every schedule that preempts "
+    "right after such a write point is executed (on a library without shared writes there are none); the fingerprint must equal its initial value after every operation; yielded candidates must not change afterwards.  "
     "traces_validated_against_impl = histories + merges + schedules executed."
 )
 ASSUMPTIONS = [
@@ -65,14 +66,22 @@ POOL = [
     {"text": "zz eight tomorrow", "ts": TS1, "kw": {"latent_time": False}},
     {"text": "noon", "ts": TS1, "kw": {}},
     {"text": "at noon", "ts": TS1, "kw": {}},
+    # same text, same reference year, different month / different text, same reference time (memos keyed by one component of ts)
+    {"text": "2020", "ts": "2019-02-05T10:17:00", "kw": {}},
+    {"text": "2020", "ts": "2019-11-05T10:17:00", "kw": {}},
+    {"text": "1430", "ts": "2019-11-05T10:17:00", "kw": {}},
+    # a repeated hashtag next to different ones (a set-based de-duplication would order labels by string hash)
+    {"text": "#bb call #aa tomorrow 5pm #bb #cc #dd", "ts": TS1, "kw": {}},
 ]
+TS_COMPONENT = [23, 24, 25]
 SHIFT_PAIRS = [(13, 14), (15, 16), (17, 18), (19, 20), (21, 22)]
 FAIL = 7
-CALLABLE = list(range(13)) + [13, 14]  # history alphabet (the offset-shift pairs beyond #14 are exercised by the stream merges)
+CALLABLE = list(range(13)) + [13, 14, 23, 24, 25]  # history alphabet (the offset-shift pairs beyond #14 are exercised by the stream merges)
 OPENABLE = [0, 3, 5, 9, 10, 13]
 MERGE_POOL = [0, 1, 3, 4, 5, 8, 9, 10, 11, 12]
 SCHED_PAIRS_QUICK = [(9, 6, "one", "one"), (9, 9, "gen", "one")]
 SCHED_PAIRS_THOROUGH = SCHED_PAIRS_QUICK + [(9, 0, "one", "gen"), (9, 4, "one", "gen"), (0, 3, "one", "gen"), (4, 4, "gen", "gen"), (8, 0, "gen", "one")]
+WSCAN_PAIRS = [(9, 9, "one", "one"), (9, 0, "one", "gen"), (0, 13, "gen", "one")]
 LINE_PAIRS_THOROUGH = [(9, 6, "one", "one"), (9, 4, "one", "gen")]
 HASH_SEEDS = [0, 1, 2, 4294967295]
 
@@ -211,21 +220,23 @@ FP0 = None
 FP_EVERY_OP = False
 
 
-def _histories(depth):
+def _histories(depth, call_alpha=None, open_alpha=None):
     """all operation sequences up to `depth` with at most 2 open streams"""
     out = []
+    call_alpha = CALLABLE if call_alpha is None else call_alpha
+    open_alpha = OPENABLE if open_alpha is None else open_alpha
 
     def rec(ops, open_streams, d):
         if ops:
             out.append(tuple(ops))
         if d == 0:
             return
-        for i in CALLABLE:
+        for i in call_alpha:
             if i != FAIL:
                 rec(ops + [("CALL", i)], open_streams, d - 1)
         rec(ops + [("FAIL", FAIL)], open_streams, d - 1)
         if len([s for s in open_streams if s]) < 2:
-            for i in OPENABLE:
+            for i in open_alpha:
                 rec(ops + [("OPEN", i)], open_streams + [True], d - 1)
         for k, alive in enumerate(open_streams):
             if alive:
@@ -245,7 +256,11 @@ def plan(tier, seed):
     REF["one"], REF["gen"] = one, gen_
     _scorer("dummy"), _scorer("nb")  # built once before the workers fork (object construction only, no parse)
     depth = 3 if tier == "quick" else 4
-    hist = _histories(depth)
+    if tier == "quick":
+        # depth <= 2 over the full alphabet, depth 3 over a reduced one (every kind of collision still present)
+        hist = list(dict.fromkeys(_histories(2) + _histories(3, call_alpha=[0, 1, 3, 5, 6, 10, 11, 23, 24], open_alpha=[0, 3, 9, 10])))
+    else:
+        hist = _histories(depth)
     lens = [len(g) if isinstance(g, list) and (not g or g[0] != "exc") else 0 for g in REF["gen"]]
     merge_cap = 5 if tier == "quick" else 7
     merges = []
@@ -280,6 +295,9 @@ def plan(tier, seed):
             yield m
         for c in sched_cases:
             yield c
+        # line-granularity preemption directed at shared-state WRITE points (found by profiling each thread alone)
+        for (a, b, ka, kb) in WSCAN_PAIRS:
+            yield ("wscan", a, b, ka, kb)
         if tier == "thorough":
             for r in range(32):
                 yield ("stress", r)
@@ -426,6 +444,51 @@ def run_case(case):
                 )
         _check_fp(v, "schedule", fp0)
         return {"o": "sched:" + ("preempted" if taken else "sequential"), "nt": bool(taken) or k < 0, "v": v[:3], "st": {"schedules": 1, "transitions": sum(counts), "preemptions_taken": len(taken)}}
+    if kind == "wscan":
+        from .. import sched
+        from .. import fingerprint as F
+
+        _, a, b, ka, kb = case
+        prefix = runner.REPO + "/ctparse/"
+        bodies = [body(a, ka), body(b, kb)]
+        writes = []
+        for who in (0, 1):
+            last = [F.shallow_digest()]
+            pts = []
+
+            def cb(me, k, last=last, pts=pts):
+                d = F.shallow_digest()
+                if d != last[0]:
+                    last[0] = d
+                    pts.append(k)
+
+            sched.run([bodies[who]], prefix, "line", on_point=cb)
+            writes.append(pts)
+        n_sched = 0
+        capped = False
+        for who in (0, 1):
+            pts = writes[who]
+            if len(pts) > 150:
+                pts = pts[:150]
+                capped = True
+            for k in pts:
+                res, counts, taken = sched.run(bodies, prefix, "line", first=who, preempts={(who, k): 1 - who})
+                n_sched += 1
+                for w, (i, kk) in enumerate(((a, ka), (b, kb))):
+                    ref = REF["one" if kk == "one" else "gen"][i]
+                    if res[w][0] != "ok" or res[w][1] != ref:
+                        v.append(
+                            viol(
+                                {"kind": "schedule_changes_result", "granularity": "line@write-point"},
+                                "threads ({!r},{!r}): thread {} preempted right after its shared-state write at line point {}: thread {} returned {} but reference is {}".format(POOL[a]["text"], POOL[b]["text"], who, k, w, str(res[w])[:200], str(ref)[:200]),
+                            )
+                        )
+                if v:
+                    break
+            if v:
+                break
+        _check_fp(v, "write-point schedules", fp0)
+        return {"o": "wscan:writes=%d" % min(1, len(writes[0]) + len(writes[1])), "nt": True, "v": v[:2], "st": {"schedules": n_sched, "write_points_found": len(writes[0]) + len(writes[1]), "wscan_capped": int(capped), "transitions": n_sched}}
     if kind == "stress":
         import threading
 
